@@ -76,6 +76,12 @@ theorem backing_add_noswap {P R A n e : Nat} {fS fB p : Dec} {u : UnitsRes}
         · cases hs
     · exact absurd ‹_› hX
   unfold backingOK
-  simp only [decide_eq_true_eq]
-  refine le_trans key (Nat.mul_le_mul_right _ (Nat.mul_le_mul (Nat.le_add_right _ _) (Nat.le_add_right _ _)))
+  split
+  · simp only [decide_eq_true_eq]
+    refine le_trans key (Nat.mul_le_mul_right _ (Nat.mul_le_mul (Nat.le_add_right _ _) (Nat.le_add_right _ _)))
+  · simp only [decide_eq_true_eq]
+    refine le_trans key ?_
+    calc (R + n) * (A + e) * (P * P) = ((R + n) * P) * ((A + e) * P) := by ring
+      _ ≤ ((R + n) * P + dust R A R * u.poolUnits) * ((A + e) * P + dust A R A * u.poolUnits) :=
+        Nat.mul_le_mul (Nat.le_add_right _ _) (Nat.le_add_right _ _)
 end Sif.Clp
